@@ -4,17 +4,17 @@ ALL = ['directory', 'tile_manager', 'read_directories', 'write_directories', 'he
 PROPS = {
     'C01': {'units': ALL, 'kani': ['latlng'], 'witness': 'C01'},
     'C02': {'units': ['pmtiles', 'write_directories', 'tile_manager', 'directory', 'header'], 'witness': 'C02'},
-    'C03': {'units': ['pmtiles', 'read_directories', 'directory', 'tile_manager', 'header'], 'kani': ['dirfind'], 'witness': 'C03'},
+    'C03': {'units': ['pmtiles', 'read_directories', 'directory', 'tile_manager', 'header', 'varint_dep'], 'kani': ['dirfind'], 'witness': 'C03'},
     'C04': {'units': ['tile_manager', 'pmtiles'], 'witness': 'C04'},
-    'C05': {'units': ['directory'], 'kani': ['varint'], 'witness': 'C05'},
+    'C05': {'units': ['directory', 'varint_dep'], 'kani': ['varint'], 'witness': 'C05'},
     'C06': {'units': ['write_directories', 'directory'], 'witness': 'C06'},
     'C07': {'units': ['pmtiles'], 'kani': ['tile_id'], 'witness': 'C07'},
-    'C08': {'units': ['directory', 'tile_manager', 'read_directories', 'header', 'pmtiles', 'write_directories'], 'witness': 'C08'},
+    'C08': {'units': ['directory', 'tile_manager', 'read_directories', 'header', 'pmtiles', 'write_directories', 'varint_dep'], 'witness': 'C08'},
     'C09': {'units': ['header', 'pmtiles'], 'kani': ['latlng'], 'witness': 'C09'},
     'C10': {'units': ['tile_manager'], 'witness': 'C10'},
     'C11': {'units': ['read_directories', 'pmtiles'], 'witness': 'C11'},
     'C12': {'units': ALL, 'witness': 'C12'},
-    'C13': {'units': ALL, 'witness': 'C13'},
+    'C13': {'units': ALL + ['varint_dep'], 'witness': 'C13'},
     'C15': {'units': ALL, 'witness': 'C15'},
     'C16': {'units': ['pmtiles', 'tile_manager'], 'kani': ['latlng'], 'witness': 'C16'},
     'C17': {'units': ['pmtiles', 'header', 'write_directories', 'directory'], 'witness': 'C17'},
@@ -31,7 +31,17 @@ def _close_units():
     here = os.path.dirname(os.path.dirname(os.path.abspath(__file__)))
     deps = {}
     for f in glob.glob(os.path.join(here, 'units', '*.vrs')):
-        deps[os.path.basename(f)[:-4]] = sorted({m.group(1) for m in re.finditer(r'^//@stub (\w+) ', open(f).read(), re.M)})
+        texts, todo, seen = [], [f], set()
+        while todo:      # the unit template and everything it includes (a spec file may carry a stub as well)
+            g = todo.pop()
+            if g in seen or not os.path.exists(g):
+                continue
+            seen.add(g)
+            t = open(g).read()
+            texts.append(t)
+            todo += [os.path.join(here, m.group(1)) for m in re.finditer(r'^//@include (\S+)', t, re.M)]
+        me = os.path.basename(f)[:-4]
+        deps[me] = sorted({m.group(1) for t in texts for m in re.finditer(r'^\s*//@stub (\w+) ', t, re.M)} - {me})
     for cfg in PROPS.values():
         us = list(cfg.get('units', []))
         cfg['primary_units'] = list(us)
